@@ -88,6 +88,8 @@ def parse_script(script_text, start_line_number=1):
                 raise BareScriptParserError('Nested function definition', line, 1, start_line_number + ix_line)
 
             # Add the function definition statement
+            function_line = line
+            function_line_number = start_line_number + ix_line
             function_label_def_depth = len(label_defs)
             function_def = {
                 'function': {
@@ -432,6 +434,10 @@ def parse_script(script_text, start_line_number=1):
         def_key = next(iter(label_def))
         def_ = label_def[def_key]
         raise BareScriptParserError(f"Missing end{def_key} statement", def_['line'], 1, def_['lineNumber'])
+
+    # Dangling function definition?
+    if function_def is not None:
+        raise BareScriptParserError('Missing endfunction statement', function_line, 1, function_line_number)
 
     return script
 
